@@ -68,7 +68,7 @@ def run(ctx):
             corr.append(dict(case, implementation=impl, model=ans))
         report.sample({"request": q, "implementation": impl, "model": ans})
     # solutions of the parts vs the whole, on generated problems
-    n = 60 if ctx["tier"] == "quick" else 1500
+    n = 60 * nv.boost("mp") if ctx["tier"] == "quick" else 1500
     for _ in range(n):
         prob, theme = ce.gen_problem(rng)
         v = rng.randrange(len(prob.idx))
